@@ -117,7 +117,10 @@ def main(tier):
                 if c == z3.sat:
                     mdl = s.model()
                     rr.model = dict(state=mdl.eval(st, model_completion=True).as_long(), enabled=z3.is_true(mdl.eval(enabled, model_completion=True)),
-                                    new_state=mdl.eval(ns, model_completion=True).as_long(), has_tl=has_tl, has_tgt=has_tgt, claim=name)
+                                    new_state=mdl.eval(ns, model_completion=True).as_long(), has_tl=has_tl, has_tgt=has_tgt, claim=name,
+                                    pos=fpnum(mdl.eval(t_old, model_completion=True)), delta=mdl.eval(delta, model_completion=True).as_long() / 1e9,
+                                    delay=fpnum(mdl.eval(dly, model_completion=True)), dur=fpnum(mdl.eval(dur, model_completion=True)),
+                                    x0=fpnum(mdl.eval(x0, model_completion=True)))
                 ob.result = rr
                 ob.claim = name
         check.states += len(rs)
@@ -136,8 +139,44 @@ def main(tier):
     return check.finish(rule='one obligation per (pre-state shape, execution path of animate, clause of the property)')
 
 
+def fpnum(v):
+    """python float (or 'inf') of a z3 FP numeral"""
+    try:
+        if v.isInf(): return 'inf' if not v.isNegative() else '-inf'
+        if v.isNaN(): return 'nan'
+        import fractions
+        return float(fractions.Fraction(v.significand_as_long(), 2 ** (v.sbits() - 1)) * fractions.Fraction(2) ** v.exponent_as_long(biased=False)) * (-1 if v.isNegative() else 1) if not v.isZero() else 0.0
+    except Exception:
+        return 0.0
+
+
+def step_cases(mv):
+    """the solver's own pre-state on a real App (replay_bevy bevy_step), then nearby pre-states of the same shape"""
+    def ok(x, d): return x if isinstance(x, float) and x == x and abs(x) < 1e15 else d
+    dur = mv['dur'] if mv['dur'] == 'inf' else ok(mv['dur'], 3.0)
+    delay = ok(mv['delay'], 1.0); pos = ok(mv['pos'], 0.0); delta = min(ok(mv['delta'], 0.25), 1e9); x0 = ok(mv['x0'], 7.0)
+    if abs(x0) > 1e6 or x0 in (10.0, 20.0): x0 = 7.0
+    base = dict(kind='bevy_step', pre_state=mv['state'], enabled=mv['enabled'], has_tl=mv['has_tl'], has_tgt=mv['has_tgt'])
+    out = [dict(base, pos=pos, delta=delta, delay=delay, dur=dur, x0=x0)]
+    for dl, du in ((1.0, 3.0), (0.0, 2.0), (1.0, 'inf')):
+        for p in (0.0, 0.5, 1.0, 2.0, 3.0, 5.0):
+            for d in (0.0, 0.25, 10.0):
+                out.append(dict(base, pos=p, delta=d, delay=dl, dur=du, x0=7.0))
+    return out
+
+
 def confirm(check, ob):
     mv = ob.result.model
+    try:
+        cases = step_cases(mv)
+        nats = run_replay(cases, 'dev', 'replay_bevy', timeout=900)
+        check.traces_validated += len(nats)
+        for case, nat in zip(cases, nats):
+            if nat.get('violated') and mv['claim'] in nat.get('claims', '').split(','):
+                check.report_violation(ob.name, 'C18:' + mv['claim'], f'{mv["claim"]}: {nat.get("detail")}', case)
+                return
+    except Exception as e:
+        check.inconclusive.append(f'{ob.name}: bevy step replay unavailable ({e})'); return
     # native: real bevy App with a hand-driven clock; the scenario is picked by the violated clause
     case = {'kind': 'bevy_animator', 'claim': mv['claim'], 'pre_state': mv['state'], 'has_tl': mv['has_tl'], 'has_tgt': mv['has_tgt']}
     try:
